@@ -133,8 +133,9 @@ func NewIVFPQIndex(dim int, distanceKind DistanceKind, nlist int, m int, nbits i
 	}
 
 	// Validate Nbits
-	if nbits <= 0 || nbits > 16 {
-		return nil, fmt.Errorf("parameter Nbits must be in [1,16]")
+	// Codes are stored one byte per subspace, so at most 8 bits are representable
+	if nbits <= 0 || nbits > 8 {
+		return nil, fmt.Errorf("parameter Nbits must be in [1,8]")
 	}
 
 	// Create distance calculator
@@ -184,6 +185,9 @@ func (idx *IVFPQIndex) Train(vectors []VectorNode) error {
 	// Validate sufficient training data
 	if len(vectors) < idx.nlist*10 {
 		return fmt.Errorf("need at least %d vectors for training", idx.nlist*10)
+	}
+	if len(vectors) < idx.Ksub {
+		return fmt.Errorf("need at least %d vectors for training", idx.Ksub)
 	}
 
 	// Validate dimensionality
